@@ -90,7 +90,9 @@ XmlMutants == {[fam |-> "xml", pos |-> p, op |-> "retag", arg |-> q] : p \in {x 
 \* value kinds of a dict document put where another kind is declared (identifiers; the driver holds the trees)
 \* (negfloat: -1.0, an integral float; null; ydate / yset: YAML's native date and set, which JSON and MessagePack cannot spell)
 Trees == {"emptymap", "emptylist", "map1", "list1", "str", "strnum", "zero", "one", "false", "true", "float", "emptystr", "listlist", "personmap", "wrapped_person", "wrapped_appcircle",
-          "negfloat", "null", "ydate", "yset", "listnull"}
+          "negfloat", "null", "ydate", "yset", "listnull",
+          \* texts that spell numbers the way other notations do (exponent forms YAML 1.1 leaves as strings): still texts
+          "expstr", "expstrneg", "expfrac"}
 DictMutants == {[fam |-> "dict", pos |-> p, op |-> "replace", arg |-> <<x, "">>] : p \in Positions, x \in Trees}
 \* wrapper documents (ignore_wrappers = FALSE): the wrapper key of an object renamed
 WrapperNames == {"Shape", "Circle", "Square", "Person", "Nope", "f", "Color", "Integer"}
